@@ -433,6 +433,10 @@ def gen_C05(rng, tier):
     # jobs submitted after the limits fired must still be served
     ops.append(['sleep', rng.choice([0.5, 3.0, 6.0])])
     add_applies(rng, c, ops, rng.randint(1, 2), mk=lambda: prog_ok(rng, sleep=0.05))
+    if rng.random() < 0.15:
+        # the enforcing thread loses the processor between two lines of the TERM / wait / KILL sequence, for about
+        # two supervision periods: the supervisor may reap the worker (and close its handle) in between
+        case['th_preempt'] = rng.choice([0.15, 0.25])
     return case
 
 
@@ -860,7 +864,7 @@ def shrink(case):
             c['pool'][key] = None
             yield c
     for key, val in (('short_io', False), ('pipe_cap', 65536), ('sleep_jitter', 0.0), ('policy', 'fifo'),
-                     ('cb_delay', None)):
+                     ('cb_delay', None), ('th_preempt', None)):
         if case.get(key) != val:
             c = copy.deepcopy(case)
             c[key] = val
